@@ -80,6 +80,23 @@ def session(rng, nnodes, nmsgs):
     return f"net {len(tree)} 1 " + " ; ".join(ops)
 
 
+def during_wait_session(rng):
+    """implementation only (no Lean twin: `net n 2`): a multicast frame for the node's level arrives ON THE AIR, from a
+    transmitter outside the session, WHILE the node is inside write() waiting for the NETWORK_ACK of a routed message
+    (sent to an absent node, so the wait lasts the whole route_timeout); `env acklog` then lists the radio-level
+    acknowledgements the node's radio sent for such packets: there must be none (seeded change C14-s23 switched auto-ack
+    off on pipe 0 only after the wait)."""
+    a = rng.choice([0o1, 0o2, 0o3, 0o4])
+    absent = rng.choice([d for d in (0o1, 0o2, 0o3, 0o4, 0o5) if d != a])
+    frm = gen_net.frame_bytes(rng.choice([d for d in (1, 2, 3, 4, 5) if d not in (a, absent)]), 0o100,
+                              rng.randrange(1, 65536), rng.randint(0, 127), 0, bytes(rng.randrange(256) for _ in range(rng.randint(0, 24))))
+    ops = ["new n0 network 0 0", f"new n1 network 1 {a}",
+           f"env arrive_air n1 {rng.choice([5, 20, 40, 60]) * 1000000} cc3ccccccc {frm}",
+           f"n1 write {absent} {rng.choice([65, 70, 127])} {rbytes(rng, rng.choice([1, 24]))} 56", "env acklog",
+           "n1 update", "n1 read", "n1 read"]
+    return "net 2 2 " + " ; ".join(ops)
+
+
 class C14(PropCheck):
     prop = "C14"
     rule = ("sampled populated trees of real nodes; multicast() from every sender class (master, 0o1, other level-1, deeper) to level "
@@ -92,7 +109,11 @@ class C14(PropCheck):
 
     def cases(self, res, tier, rng):
         n = 150 if tier == "quick" else 2500
-        return [(session(rng, rng.randint(2, 9), rng.randint(1, 3)), "multicast-trees") for _ in range(n)]
+        return ([(session(rng, rng.randint(2, 9), rng.randint(1, 3)), "multicast-trees") for _ in range(n)]
+                + [(during_wait_session(rng), "multicast-during-ack-wait (implementation only)") for _ in range(n // 6)])
+
+    def impl_only(self, line):
+        return line.startswith("net ") and line.split()[2] == "2"
 
     def nontrivial(self, line, io):
         return ">64#" in io
@@ -100,6 +121,14 @@ class C14(PropCheck):
     def judge(self, triples):
         out = []
         for l, io, mo in triples:
+            if l.startswith("net ") and " ; env acklog" in l:
+                names, parts = l.split(" ; "), io.split(" ; ")
+                for k, (name, part) in enumerate(zip(names, parts)):
+                    if name == "env acklog" and part.split(" ~ ")[0] not in ("-", ""):
+                        out.append(Finding(l, f"op {k}: a frame sent to the multicast address of the node's level was acknowledged by "
+                                              f"the node's radio while the node waited for a NETWORK_ACK ({part.split(' ~ ')[0]}): "
+                                              "multicasts are never acknowledged", {"class": "multicast-acked"}))
+                continue
             if not l.startswith("net ") or " multicast " not in l:
                 continue
             names, parts = l.split(" ; "), io.split(" ; ")
